@@ -22,6 +22,10 @@ Decided (DESIGN.md section 5, C09):
                                      pull (endless loop) nor a normal return (truncated data accepted)
     S2-no-pull-again-over-data       under "more" read() does not call the pull function again while the chunk holds data (count >= 1 by
                                      convention) / without having looked at the count (stream functions): the next call would overwrite it
+    O1-offset-is-compressed-position every Decompressor::set_offset() in a read() override is fed from a position function of the
+                                     compressed file on a handle the object owns (gzoffset, ftell, lseek; gztell = uncompressed
+                                     position is a violation), or, for a class pulling straight from read(2), from a member advanced by
+                                     the size of each chunk: Reader::offset() never exceeds the file size
     N1-no-empty-chunk-while-more     assuming the library reported "more to come" (gzread/read > 0, BZ_OK, Z_OK) the function cannot
                                      return a possibly empty chunk: the count is >= 1 by convention (and S1 holds), or the path tests
                                      the count, or it pulls again.  The same for a path that has just started the next stream after a
@@ -43,7 +47,7 @@ Decided (DESIGN.md section 5, C09):
                                      try whose catch (...) forwards current_exception() to the queue
     T2-every-chunk-forwarded         ... every chunk read is pushed to the queue unless at_end_of_data(chunk) held
 
-Findings: none on today's tree.  The rules found F5a (X2), F5b (X1 / X2 / N1) and F11 (N1); all three are fixed in the repository
+Findings on today's tree: F20 (X2, Bzip2Decompressor: end declared on "no unused bytes" without an end-of-file probe).  Earlier the rules found F5a (X2), F5b (X1 / X2 / N1) and F11 (N1); all three are fixed in the repository
 and their reverted fixes are mutants.
 
 Normal form.  The path rules (S1, N1, X1-X4, K1, K2, T1, T2) do not look at read() / close() / run_in_thread as written but at
@@ -61,8 +65,7 @@ not examined; locals initialised once are looked through (`const auto n = ...; r
 re-initialisations moved into a library helper are recognised as such (X1) or reported as unknown shape (X2, exit 2), never as a
 violation.
 
-NOT decided: byte equality with a reference decompressor; behaviour at particular buffer alignments; that the reported offset
-never exceeds the file size (gzoffset / ftell are informational); what zlib's gz layer does between members (gzread is
+NOT decided: byte equality with a reference decompressor; behaviour at particular buffer alignments; what zlib's gz layer does between members (gzread is
 whitelisted for clause 3 by the convention table); NoDecompressor's memory-buffer branch (uncompressed input, not C09);
 positivity of the requested length (a zero-length request would make 0 ambiguous; the length is a positive constant today).
 """
@@ -71,7 +74,7 @@ from ..c08_util import in_io_layer
 from ..c09_util import (DECOMP, RTM, OPEN_CLOSE, dedupe, decompressor_classes, read_path_functions, method_of, pull_calls,
                         call_name, assume, walk_from, returned_local, stream_field, count_resizes, count_test_elements,
                         unconsumed_zero_guard, guard_signature, end_declarations, string_call_on, STRING_MUTATORS, addr_carrier,
-                        field_assigned_from, data_sources, handle_arg_is, helper_reaches, normalized, state_env, input_test_elements, no_output_env, has_output_env, on_normal_path, is_stream_member, catch_all_handler, nodes_in_handler, must_pass, is_exit, scn, reaches,
+                        field_assigned_from, data_sources, handle_arg_is, helper_reaches, normalized, state_env, input_test_elements, LOCAL_IGNORABLE, OFFSET_COMPRESSED, OFFSET_UNCOMPRESSED, file_has_more_env, resolve_alias, no_output_env, has_output_env, on_normal_path, is_stream_member, catch_all_handler, nodes_in_handler, must_pass, is_exit, scn, reaches,
                         assigned_from)
 from ..flow import path_search, describe_path
 
@@ -80,7 +83,13 @@ NS = 'osmium::io::'
 # genuine findings on the pristine tree: (rule, key, explanation).  Reported with R.bad; the coordinator decides between a
 # repository fix and a known_findings.txt line.
 KNOWN = [
-    # none today.  History: F5a (X2, Bzip2Decompressor: feof taken for end of input) fixed in /repo 6479008; F11 (N1, Bzip2Decompressor:
+    ('X2-end-only-when-input-consumed', NS + 'Bzip2Decompressor::read#end-declared@stream-end+unused-empty',
+     'F20 (replayed by the tester). libbz2 reads the FILE in 5000-byte blocks; when a stream ends exactly on a block boundary '
+     'BZ2_bzReadGetUnused reports 0 unused bytes although the file continues, and read() sets m_stream_end: every following stream '
+     'is dropped silently (fd reader 4495 bytes, buffer reader 4715). "No unused bytes" is evidence of the end only together with a '
+     'positive end-of-file probe on the FILE (fgetc() == EOF / feof() after such a probe); accepted fixed shape: '
+     'if (num_unused != 0) reopen(unused) else { c = fgetc(f); if (c == EOF) m_stream_end = true; else { ungetc(c, f); reopen(nullptr, 0); } }'),
+    # History: F5a (X2, Bzip2Decompressor: feof taken for end of input) fixed in /repo 6479008; F11 (N1, Bzip2Decompressor:
     # empty chunk after the reopen) fixed in 393c506; F5b (X1 / X2 / N1, both buffer decompressors: single stream only, truncated input
     # accepted) fixed in f507134.  The reverted fixes are mutants (selftest/mutants/fixes.py and the F11 / F5b block of mutants/c09.py).
 ]
@@ -146,6 +155,8 @@ def errdisc_rules(fb, R):
         name = call['q']
         site = fn.loc(call['id'])
         if cls == 'unknown':
+            if name in LOCAL_IGNORABLE:
+                continue
             if in_io_layer(fn):
                 R.broken('ERRDISC: extern "C" function %s called in %s (%s) has no entry in the convention table' % (name, fn.q, site))
             continue
@@ -355,6 +366,7 @@ def _one_pull(fb, R, fn, call, pull, X):
         if not in_more and not in_end:
             continue   # only on paths that end in a throw (E1)
         leak = None
+        noprobe = False
         if in_end and pull.unused is not None:
             if pull.unused[0] == 'avail_in':
                 left = {('node', x): E.ge(1) for x in fn.nodes if is_stream_member(fn, x, sq, {'avail_in'})}
@@ -377,10 +389,20 @@ def _one_pull(fb, R, fn, call, pull, X):
                     o_q = walk_from(fb, fn, q, site=call['id'], env=env, seeded=True)
                     if leak is None and on_normal_path(o_q, fn, q['id'], did):
                         leak = 'although %s reported unused bytes' % qname
+                    if pull.file_arg is not None:
+                        # the library reads the FILE in blocks: no unused bytes + FILE not at its end => more streams follow
+                        env2 = state_env(fn, call, until=q['id'])
+                        env2[car] = E.fin(0)
+                        env2.update(file_has_more_env(fn, call))
+                        o_f = walk_from(fb, fn, q, site=call['id'], env=env2, seeded=True)
+                        if on_normal_path(o_f, fn, q['id'], did):
+                            noprobe = noprobe or True
         elif in_end:
             leak = 'no way to ask the library for unconsumed input'
         uz = in_end and leak is None
-        toks = (['stream-end'] if in_end else []) + (['more'] if in_more else []) + sig + (['unused-empty'] if uz else [])
+        probed = uz and pull.file_arg is not None and not noprobe
+        toks = (['stream-end'] if in_end else []) + (['more'] if in_more else []) + sig + (['unused-empty'] if uz else []) \
+            + (['eof-probed'] if probed else [])
         key = '%s#end-declared@%s' % (fn.q, '+'.join(toks))
         if in_more:
             R.bad('X2-end-only-when-input-consumed', key, fn.loc(did),
@@ -398,6 +420,13 @@ def _one_pull(fb, R, fn, call, pull, X):
                 'has already read are dropped'
                 % (fn.expr(did), sname, leak, '; feof() says nothing about the library\'s read-ahead buffer' if any('feof' in t for t in sig) else ''),
                 'no normally returning path declares the end while unconsumed input is left')
+        if uz and pull.file_arg is not None:
+            R.check(probed, 'X2-end-only-when-input-consumed', key, fn.loc(did),
+                    '%s declares the end of the data after %s when %s reports no unused bytes, without an end-of-file probe on the FILE '
+                    '(fgetc() == EOF, or feof() after such a probe): the library reads the file in blocks, so when a stream ends exactly '
+                    'on a block boundary nothing has been read ahead although the file continues -- all following streams are dropped '
+                    'silently' % (fn.expr(did), sname, pull.unused[1]),
+                    'the end is declared only behind a positive end-of-file probe on the FILE')
 
     # ---- X3 / X4: handling of the unused bytes (query convention only)
     if pull.unused and pull.unused[0] == 'query':
@@ -436,7 +465,14 @@ def _unused_rules(fb, R, fn, call, pull, o_end, reinits):
                 % (qname, fn.loc(bad[1]['id']) if bad else '', bad[0]['q'] if bad else ''),
                 'no read of the unused-bytes pointer is reachable from a close of the handle')
         # X4: the reopen is given the unused bytes
-        for r in reinits:
+        env4 = state_env(fn, call, until=q['id'])
+        env4[N] = E.ge(1)
+        o4 = walk_from(fb, fn, q, site=call['id'], env=env4, seeded=True)
+        with_unused = [r for r in reinits if o4 is not None and r['id'] in o4.reached]
+        if reinits and not with_unused:
+            R.bad('X4-reopen-receives-unused', fn.q + '#reopen-gets-unused-bytes', fn.loc(q['id']),
+                  'with unused bytes reported by %s no call that starts the next stream is reached' % qname)
+        for r in with_unused:      # (a reopen that is only reached with no unused bytes has nothing to pass on)
             if not E.is_extern_c(r):
                 continue
             ra = r.get('args', [])
@@ -449,6 +485,58 @@ def _unused_rules(fb, R, fn, call, pull, o_end, reinits):
                     '%s that starts the next stream is not given the bytes and the count obtained from %s: the beginning of the next '
                     'stream is lost' % (r['q'], qname),
                     'unused pointer and count flow into arguments 5 and 6')
+
+
+# ------------------------------------------------------------------------------------------------ offsets
+
+def offset_rules(fb, R):
+    """O1: what a read() override reports through Decompressor::set_offset() is a position in the compressed file (Reader::offset()
+    is compared with Reader::file_size()): the value of gzoffset / ftell / lseek on a handle the object owns, or -- for a class that
+    pulls straight from read(2), where both positions coincide -- a member advanced by the size of every chunk."""
+    rule = 'O1-offset-is-compressed-position'
+    for rec in decompressor_classes(fb):
+        for fn in method_of(fb, rec.q, 'read'):
+            fn = normalized(fb, fn)
+            sets = [n for n in fn.all_nodes() if n.get('k') == 'call' and n.get('q') == DECOMP + '::set_offset' and n.get('args')]
+            if not sets:
+                continue
+            identity = [p for (_c, p) in pull_calls(fb, fn)]
+            identity = bool(identity) and all(p.name == 'read' for p in identity)
+            X = returned_local(fn)
+            bad = None
+            detail = []
+            for c in sets:
+                a = resolve_alias(fn, c['args'][0])
+                if a is None:
+                    R.broken('%s (%s): argument of set_offset has an unknown shape' % (fn.q, fn.loc(c['id'])))
+                    continue
+                if E.is_extern_c(a) and a['q'] in OFFSET_COMPRESSED:
+                    own = any((fn.root_var(x) or ('',))[0] == 'field' for x in a.get('args', []) if x is not None)
+                    if not own:
+                        bad = (c, '%s is not applied to a handle the object owns' % a['q'])
+                    detail.append(a['q'])
+                elif E.is_extern_c(a) and a['q'] in OFFSET_UNCOMPRESSED:
+                    bad = (c, '%s is the position in the UNCOMPRESSED data: the reported offset runs past the size of the compressed file '
+                              '(use gzoffset)' % a['q'])
+                elif a.get('k') == 'member' and a.get('field') and fn.is_this_member(a['id']) and identity:
+                    fq = a['q']
+                    stores = [m for m in fn.all_nodes() if (m.get('k') == 'assign' or (m.get('k') == 'unop' and m.get('op') in ('++', '--')))
+                              and E.carrier_of(fn, m.get('lhs', m.get('sub'))) == ('field', fq)]
+                    okst = bool(stores)
+                    for m in stores:
+                        r = fn.sn(m['rhs']) if m.get('k') == 'assign' else None
+                        if not (m.get('k') == 'assign' and m.get('op') == '+=' and r is not None and X is not None
+                                and string_call_on(fn, r, X, {'size', 'length'})):
+                            okst = False
+                    if not okst:
+                        bad = (c, 'the member %s is not simply advanced by the size of each returned chunk' % a.get('name'))
+                    detail.append('%s += chunk.size()' % a.get('name'))
+                elif E.is_extern_c(a):
+                    R.broken('%s (%s): set_offset is fed from %s, which is not in the offset-source table' % (fn.q, fn.loc(c['id']), a['q']))
+                else:
+                    bad = (c, 'the offset is not taken from a position function of the compressed file (%s)' % fn.expr(c['args'][0])[:60])
+            R.check(bad is None, rule, fn.q + '#offset-source', fn.loc((bad[0] if bad else sets[0])['id']),
+                    'Reader::offset() must never exceed the file size: %s' % (bad[1] if bad else ''), ', '.join(detail))
 
 
 # ------------------------------------------------------------------------------------------------ 4  close
@@ -576,6 +664,7 @@ def read_thread_rules(fb, R):
 def all_rules(fb, R):
     errdisc_rules(fb, R)
     read_rules(fb, R)
+    offset_rules(fb, R)
     close_rules(fb, R)
     read_thread_rules(fb, R)
 
@@ -595,6 +684,7 @@ def run(ctx):
     R.expect('N1-no-empty-chunk-while-more', 5)      # the same five under "more" (+ Bzip2Decompressor after the reopen, while it reopens)
     R.expect('N2-retry-only-with-input-left', 2)     # inflate, BZ2_bzDecompress
     R.expect('S2-no-pull-again-over-data', 5)
+    R.expect('O1-offset-is-compressed-position', 2)  # 3 today (Gzip, Bzip2, No); a decompressor may stop reporting offsets
     R.expect('X1-stream-end-continues', 3)           # BZ2_bzRead inflate BZ2_bzDecompress
     R.expect('X2-end-only-when-input-consumed', 3)   # one declaration per stream-end-aware read()
     R.expect('K1-close-closes-library-handle', 2)    # GzipDecompressor Bzip2Decompressor
@@ -614,6 +704,7 @@ def _selftest(fb, R):
     fns = [f for f in fb.functions if f.q.startswith('osmium::')]
     errdisc_rules(fb, R)
     read_rules(fb, R)
+    offset_rules(fb, R)
     close_rules(fb, R)
     read_thread_rules(fb, R)
     # the conforming twins must stay silent: several rules fire on today's tree, this is their evidence that they can pass
@@ -625,12 +716,12 @@ def _selftest(fb, R):
             ('X2-end-only-when-input-consumed', NS + 'GoodGzipBufferDecompressor::read#end-declared@stream-end+unused-empty'),
             ('N1-no-empty-chunk-while-more', NS + 'GoodGzipBufferDecompressor::read#inflate:Z_OK'),
             ('N1-no-empty-chunk-while-more', NS + 'GoodBzip2Decompressor::read#BZ2_bzRead:after-next-stream-started'),
-            ('X2-end-only-when-input-consumed', NS + 'GoodBzip2Decompressor::read#end-declared@stream-end+unused-empty')]
+            ('X2-end-only-when-input-consumed', NS + 'GoodBzip2Decompressor::read#end-declared@stream-end+unused-empty+eof-probed')]
     missing = [k for k in need if k not in R.instances or not R.instances[k].ok]
     # the same rules through an extracted helper / switch / early return / named condition (normal form)
     H = NS + 'BadHelperBzip2Decompressor::'
     for (rule, key, want_ok) in (('X2-end-only-when-input-consumed', H + 'read#end-declared@stream-end+feof', False),
-                                 ('X2-end-only-when-input-consumed', H + 'read#end-declared@stream-end+not-feof+unused-empty', True),
+                                 ('X2-end-only-when-input-consumed', H + 'read#end-declared@stream-end+not-feof+unused-empty', False),   # no EOF probe (F20)
                                  ('N1-no-empty-chunk-while-more', H + 'read#BZ2_bzRead:after-next-stream-started', False),
                                  ('X1-stream-end-continues', H + 'read#BZ2_bzRead:next-stream-started', True),
                                  ('S1-chunk-length-is-library-count', H + 'read#BZ2_bzRead', True),
@@ -648,6 +739,6 @@ def _selftest(fb, R):
 
 SELFTESTS = [(r, 'c09_decomp.cpp', _selftest) for r in (
     'E1-read-error-reaches-throw', 'E1-nothrow-explicit-discard', 'S1-chunk-length-is-library-count', 'N1-no-empty-chunk-while-more',
-    'N2-retry-only-with-input-left', 'S2-no-pull-again-over-data',
+    'N2-retry-only-with-input-left', 'S2-no-pull-again-over-data', 'O1-offset-is-compressed-position',
     'X1-stream-end-continues', 'X2-end-only-when-input-consumed', 'X3-unused-copied-before-close', 'X4-reopen-receives-unused',
     'K1-close-closes-library-handle', 'K2-handle-reset-before-throw', 'T1-read-thread-closes-in-try', 'T2-every-chunk-forwarded')]
